@@ -18,13 +18,17 @@ import deribit_lib as L
 from common import Ctx, driver_json
 
 PROPERTY = "C16"
-LEAN_MODULES = ["Proofs.C16", "Proofs.C16.Run", "Proofs.C16.Trades"]
+LEAN_MODULES = ["Proofs.C16", "Proofs.C16.Run", "Proofs.C16.Trades", "Proofs.C16.General"]
 DRIVERS = ["driver_deribit"]
 RULE = ("whole backtests through Actuator.run: 2-5 hours at interval 1min (with a minutely Uniswap co-market), 3-8 hours at 5min / 1h, 6-14 hours at "
         "2h / 4h (resampled option data, whole coarse bars without option data); calls and puts, strikes around the underlying path and around the "
         "fallback token price, 40 % of the instruments expiring within 0.02 % of the strike with a mark independent of intrinsic (payoff below the "
         "delivery fee); strategy calls from before_bar / on_bar / after_bar / notify; expiry before the first bar / on an hour / between hours / after the last bar, instrument "
-        "present or gone from the book at expiry, whole hours missing from the option data; buckets = (interval, kind, moneyness ITM/OTM/ATM, "
+        "present or gone from the book at expiry, whole hours missing from the option data; four directed families through the same loop and oracle: rolls (all of "
+        "one instrument sold and a nearer-dated one bought inside one bar, in either order, once or twice, bought back later), positions whose payoff is below "
+        "the delivery fee followed by bars on which the underlying has moved far into the money (row kept / gone / bought again), trades attempted on the "
+        "off-hour bars and the (possibly missing) next hour after an accepted trade on an on-hour bar of the same market object, instruments absent from the "
+        "book exactly at the bar that settles them (hour with other rows / hour without data) and listed again afterwards; buckets = (interval, kind, moneyness ITM/OTM/ATM, "
         "payoff>fee or not, expiry position class, row present/absent, settled at which kind of bar) and (trade attempt, bar open/closed, outcome)")
 TRUSTED = ["the payoff ratio |S-K|/S is float arithmetic (numpy) on book rows: reproduced with Lean Float in the driver, exact reals in the theorems; "
            "the oracle allows one fee step (1e-6) between the exact-real payoff and the float one and counts such cases (measured: see notes)",
@@ -190,6 +194,189 @@ def add_scripted(rng, script, m, op, phases=(("on", 0.7), ("before", 0.1), ("aft
     if phase == "notify":
         script.setdefault(m, []).append({"type": "deposit", "amount": Decimal(rng.randint(1, 9)) / 1000})
     script.setdefault(m, []).append(op)
+
+
+# ------------------------------------------------------------------------------------------ directed families (run level, with trades)
+TOKEN_PRICE = lambda tick: 10 ** 12 / 1.0001 ** tick  # noqa: E731
+
+
+def _row(ins, h, rng):
+    S, mark = ins["path"][h]
+    k = max(2, int(mark / 0.0005))
+    return {"name": ins["name"], "state": "open", "kind": ins["kind"], "strike": ins["strike"], "expiry": ins["expiry"], "mark": mark, "underlying": S,
+            "delta": 0.5, "gamma": 0.001, "asks": [[L.grid_price(k + 1), rng.randint(20, 400)], [L.grid_price(k + 2), rng.randint(20, 400)]],
+            "bids": [[L.grid_price(max(1, k - 1)), rng.randint(20, 400)]]}
+
+
+def _other_row():
+    return {"name": "ETH-OTHER-9999-C", "state": "open", "kind": "CALL", "strike": 9999, "expiry": 10 ** 6, "mark": 0.001, "underlying": 2000.0,
+            "delta": 0.1, "gamma": 0.001, "asks": [[0.0015, 10]], "bids": [[0.0005, 10]]}
+
+
+def assemble(rng, interval, n_hours, tick, instrs, held, script, missing=()):
+    """hours / positions from instruments carrying `path` (per hour: underlying, mark), `gone` (row leaves the book once expired) and
+    `absent` (hours at which the row is missing although the hour has data); `held`: name -> amount"""
+    hours = []
+    for h in range(n_hours):
+        rows = []
+        if h not in missing:
+            for ins in instrs:
+                if (ins.get("gone") and 60 * h >= ins["expiry"]) or h in ins.get("absent", ()):
+                    continue
+                rows.append(_row(ins, h, rng))
+            if not rows:
+                rows.append(_other_row())
+        hours.append((60 * h, rows))
+    positions = [{"name": i["name"], "expiry": i["expiry"], "strike": i["strike"], "kind": i["kind"], "amount": str(held[i["name"]])}
+                 for i in instrs if i["name"] in held]
+    return {"interval": interval, "n_hours": n_hours, "tick": tick, "instrs": instrs, "hours": hours, "positions": positions, "script": script,
+            "cash": "5", "wallet": "10"}
+
+
+def _instr(rng, tag, kind, strike, expiry, n_hours, cls, gone=False, absent=(), moneyness=None):
+    sign = 1 if kind == "CALL" else -1
+    path = []
+    for h in range(n_hours):
+        m = moneyness(h) if moneyness else rng.choice((-0.08, -0.01, 0.01, 0.05, 0.12))
+        path.append((round(strike * (1 + sign * m), 4), rng.choice((0.0, 0.0011, 0.01, round(rng.uniform(0.0001, 0.2), 4)))))
+    return {"name": f"ETH-{tag}-{strike}-{'C' if kind == 'CALL' else 'P'}", "kind": kind, "strike": strike, "expiry": expiry, "exp_cls": cls,
+            "gone": gone, "absent": tuple(absent), "path": path}
+
+
+def first_settling_hour(expiry, step_h=1):
+    """index of the first hour on the bar grid at or after `expiry` (minutes)"""
+    h = max(0, -(-expiry // 60))
+    return -(-h // step_h) * step_h
+
+
+def gen_roll(rng):
+    """a roll inside one bar: everything held of instrument A is sold and the same number of contracts of the nearer-dated B is bought (in either
+    order), so the number of positions is unchanged; B then expires inside the run and is settled at its own time, A — no longer held — never is.
+    Sometimes rolled once more (B into C), sometimes A is bought back later."""
+    interval = rng.choice(("1min", "1min", "1h", "5min"))
+    n_hours = rng.randint(5, 7)
+    tick = rng.randint(199000, 201000)
+    base = int(round(TOKEN_PRICE(tick) / 25.0)) * 25
+    n = rng.choice((1, 2, 3, 5))
+    hr = rng.randint(1, n_hours - 3)                                  # the bar of the roll
+    eb = 60 * rng.randint(hr + 1, n_hours - 1) - rng.choice((0, 0, 20, 45))   # B expires after the roll, inside the run
+    a = _instr(rng, "RA", rng.choice(("CALL", "PUT")), base + rng.choice((-50, 0, 50)), 60 * n_hours + rng.choice((0, 600)), n_hours, "rolled-out")
+    b = _instr(rng, "RB", rng.choice(("CALL", "PUT")), base + rng.choice((-75, -25, 25, 75)), eb, n_hours, "rolled-into", gone=rng.random() < 0.4)
+    instrs = [a, b]
+    ops = [{"type": "sell", "name": a["name"], "amount": n}, {"type": "buy", "name": b["name"], "amount": n}]
+    if rng.random() < 0.3:
+        ops.reverse()
+    script = {60 * hr: ops}
+    if rng.random() < 0.35 and hr + 1 < first_settling_hour(eb):
+        c = _instr(rng, "RC", rng.choice(("CALL", "PUT")), base + rng.choice((-100, 100)), eb - 60 * rng.randint(0, 1) if eb - 60 > 60 * (hr + 1) else eb, n_hours, "rolled-into-2")
+        instrs.append(c)
+        script[60 * (hr + 1)] = [{"type": "sell", "name": b["name"], "amount": n}, {"type": "buy", "name": c["name"], "amount": n}]
+    if rng.random() < 0.3:
+        script.setdefault(60 * rng.randint(hr + 1, n_hours - 1), []).append({"type": "buy", "name": a["name"], "amount": 1})     # bought back
+    if rng.random() < 0.5:
+        add_scripted(rng, script, 60 * hr + (1 if interval == "1min" else 0), {"type": "sell", "name": b["name"], "amount": 1})  # off-hour attempt right after
+    sc = assemble(rng, interval, n_hours, tick, instrs, {a["name"]: n}, script)
+    sc["family"] = "roll"
+    return sc
+
+
+def gen_below_fee_then_move(rng):
+    """a position that ends barely in the money (within 0.02 % of the strike) with a mark well above intrinsic: the payoff is below the delivery
+    fee, nothing is paid, the position is removed all the same; on the following bars the underlying moves far into the money (a re-settlement or a
+    late payment would now be large) while the row stays listed, leaves the book, or is bought again"""
+    interval = rng.choice(("1min", "1h", "5min", "2h"))
+    step_h = max(1, INTERVAL_MIN[interval] // 60)
+    n_hours = rng.randint(5, 8) if step_h == 1 else 10
+    tick = rng.randint(199000, 201000)
+    kind = rng.choice(("CALL", "PUT"))
+    strike = int(round(TOKEN_PRICE(tick) / 25.0)) * 25 + rng.choice((-50, 0, 50))
+    expiry = 60 * rng.randint(1, n_hours - 3) - rng.choice((0, 0, 15, 59))
+    hs = first_settling_hour(expiry, step_h)
+    eps = rng.choice((2e-6, 1e-5, 3e-5, 1e-4, 1.4e-4))
+    later = rng.choice((0.05, 0.1, 0.3))
+    x = _instr(rng, "BF", kind, strike, expiry, n_hours, "below-fee-then-move", gone=rng.random() < 0.35,
+               moneyness=lambda h: eps if h <= hs + step_h - 1 else later)
+    x["path"] = [(S, rng.choice((0.0011, 0.0013, 0.002, 0.01, 0.05)) if h <= hs + step_h - 1 else mk) for h, (S, mk) in enumerate(x["path"])]
+    n = rng.choice((1, 2, 10, 57, 400))
+    script = {}
+    if rng.random() < 0.5 and hs + step_h < n_hours:
+        script[60 * rng.randrange(hs + step_h, n_hours, step_h)] = [{"type": "buy", "name": x["name"], "amount": rng.randint(1, 3)}]   # bought again after expiry
+    if rng.random() < 0.5 and hs >= step_h:
+        script.setdefault(60 * (hs - step_h), []).append({"type": "sell", "name": x["name"], "amount": 1})
+    sc = assemble(rng, interval, n_hours, tick, [x], {x["name"]: n}, script)
+    sc["family"] = "below-fee-then-move"
+    return sc
+
+
+def gen_off_hour_after_on_hour(rng):
+    """trades on an on-hour bar (accepted) followed, on the same market object, by attempts on the off-hour bars of that hour and on the next hour
+    — which may be missing from the option data: every attempt off the hour / on a missing hour is refused and leaves no trace"""
+    interval = rng.choice(("1min", "1min", "5min"))
+    n_hours = rng.randint(3, 5)
+    tick = rng.randint(199000, 201000)
+    strike = int(round(TOKEN_PRICE(tick) / 25.0)) * 25
+    expiry = rng.choice((60 * n_hours + 30, 60 * (n_hours - 1), 60 * (n_hours - 2) + 30))
+    x = _instr(rng, "OH", rng.choice(("CALL", "PUT")), strike, expiry, n_hours, "off-hour-after-on-hour", gone=rng.random() < 0.5)
+    h = rng.randint(0, n_hours - 2)
+    step = INTERVAL_MIN[interval]
+    script = {60 * h: [{"type": "buy", "name": x["name"], "amount": 2}]}
+    for off in sorted(set(rng.choice((step, 2 * step, 15, 30, 45, 60 - step)) for _ in range(3))):
+        m = 60 * h + off - off % step
+        if m % 60:
+            for op in ({"type": "buy", "name": x["name"], "amount": 1}, {"type": "sell", "name": x["name"], "amount": 1}):
+                if rng.random() < 0.8:
+                    add_scripted(rng, script, m, op, phases=(("on", 0.6), ("before", 0.15), ("after", 0.25)))
+    script.setdefault(60 * (h + 1), []).append({"type": "sell", "name": x["name"], "amount": 1})
+    missing = {h + 1} if rng.random() < 0.35 else set()
+    sc = assemble(rng, interval, n_hours, tick, [x], {x["name"]: rng.choice((1, 3))} if rng.random() < 0.6 else {}, script, missing)
+    sc["family"] = "off-hour-after-on-hour"
+    return sc
+
+
+def gen_absent_at_settlement(rng):
+    """the instrument is listed before and after, but its row is missing from the book exactly at the bar that settles it (the hour has data for
+    other instruments, or no data at all): it is settled there all the same, against the token price with mark 0 (no fee cap), once — and not
+    again when the row is back"""
+    interval = rng.choice(("1min", "1h", "5min"))
+    n_hours = rng.randint(4, 7)
+    tick = rng.randint(199000, 201000)
+    kind = rng.choice(("CALL", "PUT"))
+    tp = TOKEN_PRICE(tick)
+    strike = int(round(tp * rng.choice((0.9, 0.97, 1.0, 1.03, 1.1)) / 25.0)) * 25          # in / at / out of the money against the token price
+    expiry = 60 * rng.randint(1, n_hours - 2) - rng.choice((0, 0, 10, 59))
+    hs = first_settling_hour(expiry)
+    x = _instr(rng, "AB", kind, strike, expiry, n_hours, "absent-at-settlement", absent=(hs,))
+    y = _instr(rng, "AO", "CALL", strike + 500, 60 * n_hours + 600, n_hours, "bystander")
+    whole_hour = rng.random() < 0.3
+    script = {}
+    if rng.random() < 0.5:
+        script[60 * hs] = [{"type": rng.choice(("buy", "sell")), "name": x["name"], "amount": 1}]      # not in the orderbook at that bar: refused
+    if rng.random() < 0.4 and hs + 1 < n_hours:
+        script[60 * (hs + 1)] = [{"type": "buy", "name": x["name"], "amount": 1}]                      # listed again (data glitch): what the code does
+    sc = assemble(rng, interval, n_hours, tick, [x, y], {x["name"]: rng.choice((1, 2, 10)), y["name"]: 1}, script, {hs} if whole_hour else ())
+    sc["family"] = "absent-at-settlement"
+    return sc
+
+
+FAMILIES = (gen_roll, gen_below_fee_then_move, gen_off_hour_after_on_hour, gen_absent_at_settlement)
+
+
+def family_notes(ctx, sc, rec):
+    """what the directed families are after, counted next to the exact oracle's verdicts (no verdict of their own)"""
+    fam = sc.get("family")
+    if not fam:
+        return
+    for bar in rec:
+        ops = [o for o in bar["ops"] if o["op"]["type"] in ("buy", "sell")]
+        if fam == "roll" and len(ops) >= 2 and {o["op"]["type"] for o in ops[:2]} == {"buy", "sell"} and all(o["out"] == "ok" for o in ops[:2]):
+            n0 = len(ops[0]["before"]["positions"])
+            n1 = len(ops[1]["after"]["positions"])
+            ctx.count("rolls_done")
+            ctx.case(f"roll:{sc['interval']}:positions-{'unchanged' if n0 == n1 else 'changed'}:{ops[0]['op']['type']}-first")
+        if fam == "off-hour-after-on-hour":
+            for o in ops:
+                ctx.case(f"off-hour-family:{sc['interval']}:{o['op']['type']}:{o['phase']}:{'on-hour' if bar['now'] % 60 == 0 else 'off-hour'}:{o['out']}")
+    ctx.case(f"family:{fam}:{sc['interval']}")
 
 
 # ------------------------------------------------------------------------------------------ running the real thing
@@ -456,6 +643,7 @@ def run_one(ctx, sc, reqs):
                     f"{[m for m, rows in sc['hours'] if rows]}, first bar minute 0)", rep)
         return
     oracle(ctx, sc, rec, balances, prices, rep)
+    family_notes(ctx, sc, rec)
     reqs.append((model_request(sc, rec, prices, dm), sc, rec, balances, rep))
 
 
@@ -524,6 +712,8 @@ def run(ctx: Ctx):
     n = ctx.scale(26, 800)
     for _ in range(n):
         scs.append(gen_scenario(ctx.rng))
+    for i in range(ctx.scale(28, 800)):
+        scs.append(FAMILIES[i % len(FAMILIES)](ctx.rng))
     for sc in scs:
         run_one(ctx, sc, reqs)
     ctx.impl_traces = len(scs)
